@@ -25,21 +25,36 @@ def parseVal? (arm w p m : String) : Option Val :=
     | _ => none
   | _, _, _ => none
 
-/-- `port`: stage into an input port, let the echo component read and write back (native transport). -/
-def portEcho (width : Nat) (four : Bool) (words mask : List Nat) : String :=
+/-- `port`: stage into an input port, let the echo component read and write back (native
+transport) with the accessor pair selected by `mode`:
+0 = `read`/`write`, 1 = `read_u64`/`write_u64`, 2 = `read_words`/`write_words`. -/
+def portEcho (width : Nat) (four : Bool) (mode : Nat) (words mask : List Nat) : String :=
   let p := newPort width
   let staged := if four then setInputMasked p words mask else setInput p words
+  let n := wordsFor width
+  let fin (seen : List Nat × List Nat) (q : Option Port) : String :=
+    match q with
+    | none => "panic"
+    | some q => s!"seen={showNats seen.1}/{showNats seen.2} out={showNats q.words} dirty={if q.dirty then 1 else 0}"
   match staged with
   | none => "panic"
   | some p1 =>
-    -- `SimCtx::read`: the mask buffer is only requested under four-state
-    let rd := nativeReadInput p1 four
-    let seen := fromBits rd.1 (rd.2.getD []) width
-    let outW := toPortWords seen.1 width
-    let outM := if four then some (toPortWords seen.2 width) else none
-    match nativeWriteOutput (newPort width) outW outM with
-    | none => "panic"
-    | some q => s!"seen={showNats seen.1}/{showNats seen.2} out={showNats q.words} dirty={if q.dirty then 1 else 0}"
+    match mode with
+    | 0 =>
+      -- `SimCtx::read`: the mask buffer is only requested under four-state
+      let rd := nativeReadInput p1 four
+      let seen := fromBits rd.1 (rd.2.getD []) width
+      let outW := toPortWords seen.1 width
+      let outM := if four then some (toPortWords seen.2 width) else none
+      fin seen (nativeWriteOutput (newPort width) outW outM)
+    | 1 =>
+      if width > 64 then "panic" else
+      let v := readU64 p1
+      fin ([v], [0]) (writeU64 (newPort width) v)
+    | 2 =>
+      let ws := readWords p1
+      fin (ws, List.replicate n 0) (writeWords (newPort width) ws)
+    | _ => "bad-op"
 
 def step (_ : Unit) (t : List String) : Unit × String :=
   ((), match t with
@@ -57,13 +72,14 @@ def step (_ : Unit) (t : List String) : Unit × String :=
       let r := fromBits ws ms w
       showNats r.1 ++ " " ++ showNats r.2
     | _, _, _ => "bad-op"
-  | ["port", w, four, ws, ms] =>
-    match parseHex? w, parseNats? ws, parseNats? ms with
-    | some w, some ws, some ms =>
-      if four = "1" then portEcho w true ws ms
-      else if four = "0" then portEcho w false ws ms
+  | ["port", w, four, mode, ws, ms] =>
+    match parseHex? w, parseHex? mode, parseNats? ws, parseNats? ms with
+    | some w, some mode, some ws, some ms =>
+      if mode > 2 then "bad-op"
+      else if four = "1" then portEcho w true mode ws ms
+      else if four = "0" then portEcho w false mode ws ms
       else "bad-op"
-    | _, _, _ => "bad-op"
+    | _, _, _, _ => "bad-op"
   | _ => "bad-op")
 
 def run : IO Unit := runLines () step
